@@ -228,7 +228,7 @@ func TestVerifC14(t *testing.T) {
 	}
 
 	// ---- random histories
-	for k := 0; k < s.Scale(12, 60); k++ {
+	for k := 0; k < s.Scale(12, 30); k++ {
 		d, f := newFilter()
 		dst := f.Path(d.conf.DataDir)
 		cls := []string{"filtering", "random", "multi-save"}
@@ -249,7 +249,7 @@ func TestVerifC14(t *testing.T) {
 			for j := 0; j < steps; j++ {
 				sz, rl := r.Intn(120), 12+r.Intn(20)
 				if !small {
-					sz, rl = r.Intn(s.Scale(300000, 3000000)), 60+r.Intn(800)
+					sz, rl = r.Intn(s.Scale(300000, 1500000)), 60+r.Intn(800)
 				}
 				body := c14List(r.Fork(uint64(j)), sz, rl, fmt.Sprint(j))
 				switch r.Intn(6) {
